@@ -2,6 +2,7 @@ import Tw.Model.Snap
 import Tw.Gen.Snap
 import Tw.Proofs.SnapRaw
 import Tw.Proofs.SnapTotal
+import Tw.Proofs.SnapAccepted
 
 /-!
 # C11 — snapshot and delta parsers are total and enforce their limits
@@ -119,55 +120,63 @@ theorem create_delta_total_partial (a b : RawSnap) (hag : SizesAgree a b) : crea
   intro h
   exact ((createDelta_eq_none_iff a b).mp h) hag
 
-/-- `Snap::recycle`'s numbering loop cannot overflow (since the fix of D20): the counter stays
-`≤ 0x8000`, so `next_type_id + 256` fits a `u16`. -/
-theorem recycle_numbering_total : ∀ (m : Items) (n : Nat), n ≤ 32768 →
-    ∃ n', recycleNext m n = some n' ∧ n' ≤ 32768 ∧ (offsetExt ≤ n → offsetExt ≤ n') := by
-  intro m
-  induction m with
-  | nil => intro n h; exact ⟨n, rfl, h, id⟩
-  | cons q r ih =>
-    obtain ⟨k, d⟩ := q
-    intro n h
-    simp only [recycleNext]
-    split
-    · exact ⟨n, rfl, h, id⟩
-    · split
-      · rename_i hr
-        have h1 : ¬ n + 256 ≥ 65536 := by omega
-        simp only [h1, if_false]
-        split
-        · obtain ⟨n', e1, e2, e3⟩ := ih (keyId k + 1) (by omega)
-          exact ⟨n', e1, e2, fun _ => e3 (by omega)⟩
-        · exact ih n h
-      · exact ih n h
+/-- Follow-up operations on an accepted snapshot (`Accepted` is what `build_from_raw` establishes,
+see the three theorems below): enumerating the items never panics; looking up an item by a valid
+ordinal or any UUID never panics; `recycle` never panics (since the fixes of D6 and D20), keeps the
+UUID types, and no `add_item` of a UUID-typed item on the recycled builder can trip an assertion. -/
+theorem accepted_followups_total {s : Snap} (hs : Accepted s) :
+    s.items ≠ none ∧
+    (∀ o id, 0 < o → o < offsetExt → s.item (.ordinal o) id ≠ none) ∧
+    (∀ u id, s.item (.uuid u) id ≠ none) ∧
+    (∃ b, s.recycle = some b ∧ b.snap.ext = s.ext ∧
+      ∀ u id data, b.addItem (.uuid u) id data ≠ none) := by
+  refine ⟨items_ne_none hs, ?_, ?_, ?_⟩
+  · intro o id h1 h2
+    exact item_ne_none s (.ordinal o) id ⟨h1, h2⟩
+  · intro u id
+    exact item_ne_none s (.uuid u) id trivial
+  · obtain ⟨b, hb, h1, _, h3⟩ := recycle_ne_none hs
+    refine ⟨b, hb, h3, ?_⟩
+    intro u id data
+    simp only [Builder.addItem]
+    cases mfind u b.snap.ext with
+    | some t =>
+      simp only
+      cases b.snap.raw.addItem (keyOf t id) data <;> simp
+    | none =>
+      simp only [h1, not_true_eq_false, if_false]
+      split
+      · simp
+      · cases b.snap.raw.addItem (keyOf typeIdEx b.nextTypeId) (uuidToData u) with
+        | error e => simp
+        | ok raw1 =>
+          simp only
+          cases raw1.addItem (keyOf b.nextTypeId id) data <;> simp
 
-/-- … and a builder whose counter is in `OFFSET_EXTENDED_TYPE_ID ..= 0x8000` never trips an
-assertion of `add_item` for a UUID type (when the ids are used up it returns `TooManyItems`). -/
-theorem add_uuid_item_total (b : Builder) (h : offsetExt ≤ b.nextTypeId) (u : Int) (id : Nat) (data : List Int) :
-    b.addItem (.uuid u) id data ≠ none := by
-  simp only [Builder.addItem]
-  cases mfind u b.snap.ext with
-  | some t =>
-    simp only
-    cases b.snap.raw.addItem (keyOf t id) data <;> simp
-  | none =>
-    simp only [h, not_true_eq_false, if_false]
-    split
-    · simp
-    · cases b.snap.raw.addItem (keyOf typeIdEx b.nextTypeId) (uuidToData u) with
-      | error e => simp
-      | ok raw1 =>
-        simp only
-        cases raw1.addItem (keyOf b.nextTypeId id) data <;> simp
+/-- A snapshot accepted from integers is `Accepted`, and it is never larger than its input
+(items + data words + the two header words ≤ number of input integers): the reader's allocations
+are bounded by the input. -/
+theorem accepted_from_ints {data : List Int} (hI : ∀ x ∈ data, I32 x) {s : Snap} {ws : List Warning}
+    (h : Snap.readFromInts data = .ok (s, ws)) :
+    Accepted s ∧ s.raw.items.length + dataLen s.raw.items + 2 ≤ data.length :=
+  accepted_of_readFromInts hI h
 
-/-- Not proved as theorems (checked by the correspondence run and the `C11/followup-panic` oracle on
-every accepted parse only): `items()` and the re-insertion loop of `recycle` never panic on an
-accepted snapshot, and the reader's allocations are bounded by the input length. -/
-def C11_followups_full : Prop :=
-  ∀ (data : List Int) (s : Snap) (ws : List Warning), (∀ x ∈ data, I32 x) →
-    Snap.readFromInts data = .ok (s, ws) →
-    s.items ≠ none ∧ s.recycle ≠ none ∧ s.raw.items.length + dataLen s.raw.items + 2 ≤ data.length
+/-- The same from bytes (the bound is in bytes: at most one integer per byte). -/
+theorem accepted_from_bytes {bs : List UInt8} {s : Snap} {ws : List Warning}
+    (h : Snap.readBytes bs = .ok (s, ws)) :
+    Accepted s ∧ s.raw.items.length + dataLen s.raw.items + 2 ≤ bs.length :=
+  accepted_of_readBytes h
+
+/-- And a snapshot obtained by applying an accepted delta to an accepted snapshot. -/
+theorem accepted_from_delta {a s : Snap} {d : Delta} {ws : List Warning} (ha : a.raw.WF)
+    (hd : ∀ p ∈ d.updated, I32 p.1 ∧ ∀ v ∈ p.2, I32 v) (h : a.readWithDelta d = .ok (s, ws)) : Accepted s :=
+  accepted_of_readWithDelta ha hd h
+
+/-- `Snap::recycle`'s numbering loop cannot overflow for *any* item list (since the fix of D20):
+the counter stays `≤ 0x8000`, so `next_type_id + 256` fits a `u16`. -/
+theorem recycle_numbering_total (m : Items) (n : Nat) (h : n ≤ 32768) :
+    ∃ n', recycleNext m n = some n' ∧ n' ≤ 32768 ∧ (offsetExt ≤ n → offsetExt ≤ n') :=
+  recycleNext_total m n h
 
 /-- The former panic witness of D19 (nine-integer delta with an explicit size 3 for an item stored
 with size 2) is an error now. -/
@@ -188,6 +197,12 @@ example : Snap.readFromInts [40, 2, 0, 20, 16384, 1, 2, 3, 4, 16385, 1, 2, 3, 4]
   decide
 example : Snap.readFromInts [8, 1, 0, 16384, 1] = .err .invalidUuidType := by decide
 example : Snap.readFromInts [8, 1, 0, 1073741825, 5] = .err .missingUuidType := by decide
+-- the two limit errors (any 1025th item; a single item of 16381 integers = 65540 bytes)
+example (s : RawSnap) (k : Int) (h : s.items.length = 1024) (hk : mfind k s.items = none) :
+    s.addItem k [] = .error .tooManyItems := by
+  simp [RawSnap.addItem, hk, vacantCheck, h, maxItems_eq]
+example (d : List Int) (h : d.length = 16381) : RawSnap.empty.addItem 5 d = .error .tooLongSnap := by
+  simp [RawSnap.addItem, RawSnap.empty, mfind, vacantCheck, serializedSize, dataLen, maxItems_eq, maxSize_eq, h]
 example : readDelta (fun _ => none) (.ints []) = .err .unexpectedEnd := by decide
 example : readDelta (fun _ => none) (.bytes [0x40]) = .err .intOutOfRange := by decide
 example : readDelta (fun _ => none) (.ints [1, 0, 0]) = .err .deletedItemsUnpacking := by decide
